@@ -68,7 +68,7 @@ def run(ctx):
               "max|M| I) and sum over similar pairs of v^T M v <= 1.01 * t with t = (sum v^T A_init v)/100 recomputed on "
               "rationals from the pairs and the initial matrix the implementation started from; the initial matrix is the "
               "documented one; the same with max_proj just above what the first projection needs (similar pairs along one direction); diagonal variant: M diagonal with non-negative entries, or ValueError, never NaN.")
-  ctx.trusted = ["Coq 8.16.1 kernel + vm_compute", "model Model/MMC.v (outer loop over abstract oracles)",
+  ctx.trusted = ["translator tools/translate_mmc.py + tools/pynum.py / Base/NPNum.v (budget, half-space step, exit test), text pins (all of _BaseMMC)", "Coq 8.16.1 kernel + vm_compute", "model Model/MMC.v (outer loop over abstract oracles)",
                  "oracle: numpy eigh inside the projection"]
   ok = ctx.build_property(gen_needed=['Src_mmc'])
   terms, recs = [], []
